@@ -150,5 +150,33 @@ __CPROVER_ensures(vf_ini_post_parse(ini, __CPROVER_old(ini->lines_count), buf, b
     __CPROVER_return_value))
 ;
 
+/* --------------------------------------------------------------------- update ---- */
+#define VF_INI_LINE_TGT(i)	((i) < ini->lines_count && ini->lines[(i)] != NULL)
+int
+ini_val_set(const ini_p ini,
+    const uint8_t *sect_name, const size_t sect_name_size,
+    const uint8_t *val_name, const size_t val_name_size,
+    const uint8_t *val, size_t val_size)
+__CPROVER_requires(ini != NULL && vf_ini_wf(ini) && ini->lines_count <= VF_INI_MAXL)
+__CPROVER_requires(VF_INI_NAME_SPAN(sect_name, sect_name_size))
+__CPROVER_requires(VF_INI_VNAME_SPAN(val_name, val_name_size))
+__CPROVER_requires(val_size == 0 || __CPROVER_r_ok(val, val_size))
+/* frame: the store header, the line table, the (at most VF_INI_MAXL) existing records */
+__CPROVER_assigns(ini->lines, ini->lines_count, ini->lines_allocated)
+__CPROVER_assigns(ini->lines != NULL: __CPROVER_object_whole(ini->lines))
+__CPROVER_assigns(ini->lines != NULL && VF_INI_LINE_TGT(0): __CPROVER_object_whole(ini->lines[0]))
+__CPROVER_assigns(ini->lines != NULL && VF_INI_LINE_TGT(1): __CPROVER_object_whole(ini->lines[1]))
+__CPROVER_assigns(ini->lines != NULL && VF_INI_LINE_TGT(2): __CPROVER_object_whole(ini->lines[2]))
+__CPROVER_assigns(ini->lines != NULL && VF_INI_LINE_TGT(3): __CPROVER_object_whole(ini->lines[3]))
+__CPROVER_assigns(__CPROVER_object_whole(vf_ini_req))	/* ghost table of the allocator stubs */
+__CPROVER_frees(ini->lines)
+__CPROVER_frees(ini->lines != NULL && VF_INI_LINE_TGT(0): ini->lines[0])
+__CPROVER_frees(ini->lines != NULL && VF_INI_LINE_TGT(1): ini->lines[1])
+__CPROVER_frees(ini->lines != NULL && VF_INI_LINE_TGT(2): ini->lines[2])
+__CPROVER_frees(ini->lines != NULL && VF_INI_LINE_TGT(3): ini->lines[3])
+__CPROVER_ensures(vf_ini_post_val_set(ini, sect_name, sect_name_size, val_name,
+    val_name_size, val, val_size, __CPROVER_return_value))
+;
+
 #endif /* !VF_REPLAY */
 #endif
